@@ -3,6 +3,7 @@ package props
 import (
 	"encoding/json"
 	"fmt"
+	"regexp"
 	"strings"
 
 	"verif/harness/gen"
@@ -32,6 +33,8 @@ func applyKnownSwitches(cfg *gen.BundleCfg) {
 				cfg.NoKeywordPropsInFull = true
 			case s == "NoCollisions":
 				cfg.NoCollisions = true
+			case s == "NoCollisionsInFull":
+				cfg.NoCollisionsInFull = true
 			case s == "NoKeepNames":
 				cfg.NoKeepNames = true
 			case s == "NoSharedSchemaPtrs":
@@ -73,6 +76,17 @@ func init() {
 		}
 		return strings.Contains(fail, "OAIGen")
 	}
+	// Full flattening with imported definitions that collide by name: the conflict definitions (OAIGen)
+	// are merged back into their referers from a list of referers computed before the merging starts;
+	// when naming inline schemas has moved a referer, or one conflict definition refers to another,
+	// a $ref to an already deleted OAIGen definition survives and Flatten fails on it.
+	Classifiers["full-oaigen-dedupe-dangling"] = func(prop string, c interface{}, fail string) bool {
+		fc, ok := c.(*gen.FlattenCase)
+		if !ok || fc.Opts.Minimal || fc.Opts.Expand || !hasImportCollision(fc) {
+			return false
+		}
+		return oaigenDangling.MatchString(fail)
+	}
 	// spec.ExpandSpec itself (go-openapi/spec, outside this repository) fails on the bundle: a remote
 	// reference cycle reached from documents in two different directories is rebased twice.
 	Classifiers["spec-expandspec-fails"] = func(prop string, c interface{}, fail string) bool {
@@ -88,6 +102,36 @@ func init() {
 		}
 		return false
 	}
+}
+
+var oaigenDangling = regexp.MustCompile(`object has no key "[^"]*(OAIGen|oaiGen)[0-9]*"|nil value has no field|dangling: ref "#/definitions/[^"]*(OAIGen|oaiGen)[0-9]*"`)
+
+// hasImportCollision: two definitions of the bundle (at least one auxiliary) fold onto the same name.
+func hasImportCollision(c *gen.FlattenCase) bool {
+	type nd struct {
+		name string
+		aux  bool
+	}
+	var all []nd
+	for n := range Obj(c.Root["definitions"]) {
+		all = append(all, nd{n, false})
+	}
+	for _, d := range c.Aux {
+		for n := range Obj(d["definitions"]) {
+			all = append(all, nd{n, true})
+		}
+	}
+	for i, x := range all {
+		if x.aux && gen.CollisionBase(x.name, true) == "" {
+			return true
+		}
+		for j, y := range all {
+			if i != j && x.aux && gen.CollisionBase(x.name, true) == gen.CollisionBase(y.name, y.aux) {
+				return true
+			}
+		}
+	}
+	return false
 }
 
 func inputHasOAIGenName(c *gen.FlattenCase) bool {
